@@ -565,9 +565,43 @@ func runC04(c *core.Ctx, o Options) {
 				}
 			})
 			c.Check(chans == 3, "F6", "NewAcceptorHandler", "fresh out/incoming/errors channels per handler", nh.Pos(), "3 make(chan)", fmt.Sprintf("%d channels created", chans))
+			// nothing a handler dispatches through is shared between handlers: every store to a channel or pool field of
+			// DefaultHandler, anywhere, stores something made for that handler (make / New…Pool()), never a value taken from elsewhere
+			perHandler := map[string]bool{"out": true, "incoming": true, "errors": true, "incomingHandlers": true, "outgoingHandlers": true, "eventHandlers": true}
+			nSt := 0
+			for _, fn := range fns {
+				an.AllInstrs(fn, func(in ssa.Instruction) {
+					st, ok := in.(*ssa.Store)
+					if !ok {
+						return
+					}
+					fa, ok := st.Addr.(*ssa.FieldAddr)
+					if !ok || !an.TypeIs(fa.X.Type(), "simplefix-go", "DefaultHandler") || !perHandler[an.FieldOf(fa).Name()] {
+						return
+					}
+					nSt++
+					fresh := false
+					switch v := an.Unwrap(st.Val).(type) {
+					case *ssa.MakeChan:
+						fresh = true
+					case *ssa.Call:
+						if cal := an.StaticCallee(&v.Call); cal != nil && strings.HasPrefix(an.NameOf(cal), "New") && strings.HasSuffix(an.NameOf(cal), "Pool") {
+							fresh = true
+						}
+					}
+					c.Check(fresh, "F6", an.NameOf(fn), "handler."+an.FieldOf(fa).Name()+" is made for this handler", st.Pos(), "make(chan) / New…Pool()",
+						"DefaultHandler."+an.FieldOf(fa).Name()+" is set to "+an.Render(st.Val)+": a queue or handler registry taken from elsewhere is shared between connections — one connection's handlers then see another connection's messages")
+				})
+			}
+			c.Check(nSt >= 6, "F6", "DefaultHandler", "stores to the per-handler queues and registries found", token.NoPos, fmt.Sprint(nSt), fmt.Sprintf("only %d stores found (6 per constructor were confirmed)", nSt))
 		}
 	}
-	c.RuleMin = map[string]int{"F1": 3, "F2": 3, "F3": 1, "F4": 6, "F5": 19, "F6": 6, "F7": 2}
+	// F5 (outbound): nothing between a sender and the outgoing queue runs in another goroutine — a message parked in a goroutine
+	// is overtaken by the next one
+	if s := newSess(c); s != nil {
+		checkSendChainNoSpawn(c, s, "F5")
+	}
+	c.RuleMin = map[string]int{"F1": 3, "F2": 3, "F3": 1, "F4": 6, "F5": 19, "F6": 12, "F7": 2}
 	c.MinObl = 40
 }
 
